@@ -15,6 +15,12 @@ CLAIMS["C20"] = dict(
     technique="contract-based deductive verification: sidecar pre/postconditions + lemmas over contracts, VCs from symbolic execution of the real source, z3 then cvc5, counterexamples replayed on the real code",
     design_ref="DESIGN.md §2 C20",
 )
+CLAIMS["C06"] = dict(
+    text="Deductive proof of the multi-part assembly: representation invariant wf(chunk, writer, ghost) -- left_data ++ parts ++ data is exactly one segment of the global byte stream, parts adjacent with strictly increasing ids inside the chunk's id window and the writer's range, every part >= min_write_sz, enough kept back to always finish, observed = ordered (size,id) list -- is preserved by append, maybe_write, flush_rhs and merge for ARBITRARY well-formed adjacent operands (hence every merge tree / dask fold shape, any spill_sz >= 1, any writer limits), by the append-loop operator (loop invariant, unbounded number of chunks) and the fold operator; flush and _finalizer_dask_op then hand finalise exactly header ++ data ++ footer as adjacent parts with unique increasing in-range ids, all but the last >= minimum size; header/footer callbacks observe the complete ordered list; no internal assert can fail.",
+    note="bytes are abstracted to stream segments (content-parametric operations only); the PartsWriter is a ghost object; _mpu_collate_op is unrolled for 1-3 sub-streams and gen_bunch for 0,1,2,4 partitions; dask's fold/from_sequence/map_partitions semantics (adjacent, in-order combination) and the id arithmetic inside mpu_write/from_dask_bag (dask objects) are assumed; max_write_sz is enforced by nothing in the module and is not claimed",
+    technique="contract-based deductive verification: data-structure invariant + abstract view over ghost stream positions, quantified array invariants, loop invariant, modular stubs; z3 (cvc5 fallback); counterexamples replayed on the real code through a content-based native oracle",
+    design_ref="DESIGN.md §2 C06",
+)
 NA = {
     "C09": "xarray object-model behaviour (coords/attrs/encoding propagation); no contract within reach can state it - see DESIGN.md C09",
     "C13": "equality of GDAL warps (whole vs chunked) and dask scheduling; no contract within reach - see DESIGN.md C13",
